@@ -1,13 +1,19 @@
 #!/bin/bash
-# Final confirmation as the brief describes it: apply each seeded patch to /repo itself, run the quick check,
+# Final confirmation as the brief describes it: apply a seeded patch to /repo itself, run the quick check,
 # restore the tree.  Only run this when nothing else builds from /repo.
+# usage: tools/seeded_confirm.sh [ID-slot ...]   (default: every seeded change)
 cd /verif
-for d in seeded/*/; do
-  k=$(basename $d); id=${k%%-*}
+export GOFLAGS=-mod=mod GOPROXY=off
+list="$@"; [ -z "$list" ] && list=$(ls seeded | grep -E '^C[0-9]+-[A-Z]$')
+for k in $list; do
+  d=seeded/$k
   chk=$(python3 -c "import json;print(json.load(open('$d/meta.json'))['check_run']['check'])")
-  git -C /repo apply $d/patch.diff || { echo "$k APPLY-FAILED"; continue; }
+  det=$(python3 -c "import json;print(json.load(open('$d/meta.json'))['detected'])")
+  [ "$det" = "superseded" ] && { echo "$k superseded (patch no longer applies after a repair of /repo)"; continue; }
+  git -C /repo apply $d/patch.diff || { echo "$k APPLY-FAILED"; git -C /repo checkout -- . ; continue; }
   out=$(./check $chk --no-evidence 2>&1); e=$?
   git -C /repo checkout -- . ; git -C /repo clean -fdq
   rm -rf replays/$chk/found
   echo "$k check=$chk exit=$e $(echo "$out" | grep -m1 '^VIOLATION' | cut -c1-120)"
 done
+git -C /repo status --short | head -3
